@@ -72,4 +72,11 @@ CHECKS.update({
         "technique": "symbolic execution (CrossHair + z3) of one inductive step of the real storage code / real session from a symbolic pre-state",
     },
 })
+CHECKS.update({
+    "C16": {
+        "text": "(a) the repo's sort_set_values (the ordering step of the set / frozenset renderers) is executed on the same distinct symbolic ints - optionally mixed with strs for the not-orderable branch - in two iteration orders related by a symbolic permutation index; the solver confirms identical output for every pair of orders and every value assignment (an arbitrary hash seed is an arbitrary iteration order). (b) the real create/fix pipeline runs on the same symbolic data under real black, black missing and an identity format-command: identical syntax tree and equal value of the rewritten argument on every path.",
+        "note": "Bound: sets of <=4 (5) elements, 6 data shapes. Different interpreter processes / hash seeds are only exercised by a labelled contract-validation item (3 real pytest processes).",
+        "technique": "symbolic execution (CrossHair + z3) of the real set ordering over symbolic permutations; differential runs of the real pipeline under three formatter configurations",
+    },
+})
 NOT_APPLICABLE = {}
